@@ -39,6 +39,30 @@ theorem C02_success_leaves_empty (tbl : Table) (alg : AtomAlg A)
     (h : solveI tbl alg steps st s = (b, .ok t)) : b = ⟨[], []⟩ :=
   solveFromF_ok_empty tbl alg steps _ _ b s t h
 
+/-- **Everything a call writes.** With `self.expr` in the state as well (the two buffers and the
+    expression object are all that `solve` assigns): whatever the instance went through, the next
+    outcome is a fresh instance's. -/
+theorem C02_instance_independence (tbl : Table) (alg : AtomAlg A)
+    (steps : List (List String × Otype)) (i : Inst A) (h : List (List Char)) (s : List Char) :
+    ((Inst.run tbl alg steps i h).solve tbl alg steps s).2 = solve tbl alg steps s := rfl
+
+/-- **Nested argument solving uses a fresh state.** A call's arguments are solved by ONE nested
+    instance, one after the other (as in the code); the values are those that independent fresh
+    instances return, whatever state the nested instance starts in -- argument k is unaffected by
+    arguments 1..k-1. -/
+theorem C02_nested_fresh (tbl : Table) (alg : AtomAlg A) (steps : List (List String × Otype))
+    (st0 : Bufs A) (args : List (List Char)) :
+    solveArgs (fun st a => solveI tbl alg steps st a) st0 args = freshArgs tbl alg steps args :=
+  solveArgs_fresh tbl alg steps args st0
+
+/-- … and so for the nested solver of every nesting depth inside `solve` itself (fuel `n`):
+    the buffers the nested instance is left with after one argument do not matter for the next. -/
+theorem C02_nested_state_irrelevant (tbl : Table) (alg : AtomAlg A)
+    (steps : List (List String × Otype)) (n : Nat) (st0 st1 : Bufs A) (args : List (List Char)) :
+    solveArgs (fun st a => solveFromF tbl alg steps n (resetBufs st) a) st0 args
+      = solveArgs (fun st a => solveFromF tbl alg steps n (resetBufs st) a) st1 args :=
+  solveArgs_reset (fun b a => solveFromF tbl alg steps n b a) args st0 st1
+
 /-- the history of DESIGN §9: `solve("1 + x")` raises, then `solve("2")` -/
 def h1x : List Char := ['1', ' ', '+', ' ', 'x']
 
